@@ -273,22 +273,27 @@ class RouteCQC:
         """
         two_qubit_circuit = circuits.Circuit()
         single_qubit_ops: list[list[cirq.Operation]] = []
-        # Latest timestep that measured or used each key: an operation sharing a key with an earlier
-        # one must not be scheduled before it (timesteps only follow the two-qubit gates).
-        key_timestep: dict[cirq.MeasurementKey, int] = {}
+        # Latest timestep of an operation on each qubit and on each measurement key: a later operation
+        # that shares one of them must not be scheduled before it (the timesteps of the two-qubit
+        # circuit alone do not see single-qubit operations, measurements and classical controls).
+        label_timestep: dict[Any, int] = {}
 
         for i, moment in enumerate(circuit):
             for op in moment:
                 timestep = two_qubit_circuit.earliest_available_moment(op)
-                keys = protocols.measurement_key_objs(op) | protocols.control_keys(op)
-                timestep = max([timestep, *(key_timestep[k] for k in keys if k in key_timestep)])
+                labels = (
+                    set(op.qubits)
+                    | protocols.measurement_key_objs(op)
+                    | protocols.control_keys(op)
+                )
+                timestep = max([timestep, *(label_timestep[k] for k in labels if k in label_timestep)])
                 if protocols.num_qubits(op) == 2:
                     while timestep < len(two_qubit_circuit) and two_qubit_circuit[
                         timestep
                     ].operates_on(op.qubits):
                         timestep += 1
-                for k in keys:
-                    key_timestep[k] = timestep
+                for k in labels:
+                    label_timestep[k] = timestep
                 single_qubit_ops.extend([] for _ in range(timestep + 1 - len(single_qubit_ops)))
                 two_qubit_circuit.append(
                     circuits.Moment() for _ in range(timestep + 1 - len(two_qubit_circuit))
